@@ -41,7 +41,7 @@ def run(chk):
     roles = {}
 
     def record(role, code, f, node, extra_ok=True, detail=""):
-        want = O.ABORT.get(role)
+        want = O.ABORT.get({"unknown_command": "command"}.get(role, role))
         ok = (code in O.ABORT_NO_VALUE) if role == "no_value" else (code == want)
         roles.setdefault(role, []).append(ok)
         wtxt = "0x060A0023 or 0x08000024" if role == "no_value" else f"0x{want:08X}"
@@ -127,7 +127,7 @@ def run(chk):
             # else branch of the dispatch: all specifier tests false
             g = [(src(e), p) for e, p in fo.facts_at(st)]
             neg = [t for t, p in g if p and "!=" in t and "ccs" in t]
-            record("command", code if isinstance(code, int) else -1, onr, c, len(neg) >= 7, f"reached under {len(neg)} negated specifier tests")
+            record("unknown_command", code if isinstance(code, int) else -1, onr, c, len(neg) >= 7, f"reached under {len(neg)} negated specifier tests")
         else:
             hn = {dotted(e) for e in (handler.type.elts if isinstance(handler.type, ast.Tuple) else [handler.type])} if handler.type is not None else {"<bare>"}
             if hn == {"SdoAbortedError"}:
@@ -156,7 +156,11 @@ def run(chk):
     for c in cs:
         code = folder.try_fold(c.args[0], Scope(rr.mod, rr.cls), None) if c.args else O.ABORT["general"]
         record("timeout", code, rr, c)
-    for role in ("read_wo", "write_ro", "no_object", "length", "no_subindex", "no_value", "toggle", "command", "timeout"):
+    # every handler of on_request answers with an abort
+    for h in [n for n in own_nodes(onr.node) if isinstance(n, ast.ExceptHandler)]:
+        chk.check(any(isinstance(x, ast.Call) and dotted(x.func) == "self.abort" for x in ast.walk(h)), "R4", f"{SV}:SdoServer.on_request | handler {src(h.type) if h.type else ''} answers",
+                  onr.loc(h), "an exception raised while serving a request is not answered by an abort frame: the client runs into a time-out")
+    for role in ("read_wo", "write_ro", "no_object", "length", "no_subindex", "no_value", "toggle", "command", "unknown_command", "timeout"):
         if role not in roles:
             chk.bad("R1", f"required refusal role {role}", "-", f"no refusal site found for condition {role!r} (deleted check?)")
     ab = repo.func(SV, "SdoServer.abort", "C06.R4")
